@@ -369,7 +369,7 @@ class BaseTaskPool:
         awaitable: Awaitable[Any],
         group_name: str = DEFAULT_TASK_GROUP,
         *,
-        ignore_lock: bool = False,
+        ignore_lock: bool = True,
         end_callback: EndCB | None = None,
         cancel_callback: CancelCB | None = None,
     ) -> int:
